@@ -495,7 +495,11 @@ async fn read_length_and_string<IO: RW>(io: &mut IO) -> Result<String, Error> {
 
 async fn read_null_terminated_string<IO: RW>(io: &mut IO) -> Result<String, Error> {
     let mut buf = Vec::new();
-    io.read_until(0, &mut buf).await.context("read domain")?;
+    // a peer must not be able to make us buffer without bound
+    io.take(1024)
+        .read_until(0, &mut buf)
+        .await
+        .context("read domain")?;
     if buf.pop() != Some(0) {
         bail!("unexpected end of stream in null terminated string");
     }
